@@ -49,7 +49,7 @@ def main() -> int:
         "_doc": "values returned by live PySpark for tools/props/c17_cases.all_cases(); key = case id; the case itself is stored so a stale file is detected",
         "pyspark_version": pyspark.__version__,
         "settings": {"master": "local[1]", "spark.sql.session.timeZone": "UTC", "spark.sql.ansi.enabled": spark.conf.get("spark.sql.ansi.enabled")},
-        "cases": [{"id": c["id"], "fn": c["fn"], "args": c["args"], "group": c["group"], "spark": r} for c, r in zip(cases, res)],
+        "cases": [{"id": c["id"], "fn": c["fn"], "args": c["args"], "pre": c.get("pre"), "post": c.get("post"), "group": c["group"], "spark": r} for c, r in zip(cases, res)],
     }
     with open(os.path.join(HERE, "spark_values.json"), "w") as f:
         json.dump(out, f, indent=0, sort_keys=True)
